@@ -39,10 +39,10 @@ def run(ctx):
     quick = ctx.tier == "quick"
     samples = []
     # ---- design: limb reference == integer definition (small widths, exhaustive)
-    designs = [ctx.tlc_design("fn/CheckedSanity", "cfg/CheckedSanity.quick.cfg", timeout=900, tag="sanity-base4-w6")]
+    designs = [ctx.tlc_design("fn/CheckedSanity", "cfg/CheckedSanity.quick.cfg", timeout=900, tag="sanity-base4-w6", workers=8)]
     if not quick:
-        designs.append(ctx.tlc_design("fn/CheckedSanity", "cfg/CheckedSanity.base8.cfg", timeout=1500, tag="sanity-base8-w7"))
-        designs.append(ctx.tlc_design("fn/CheckedSanity", "cfg/CheckedSanity.thorough.cfg", timeout=2400, tag="sanity-base4-w8"))
+        designs.append(ctx.tlc_design("fn/CheckedSanity", "cfg/CheckedSanity.base8.cfg", timeout=1500, tag="sanity-base8-w7", workers=8))
+        designs.append(ctx.tlc_design("fn/CheckedSanity", "cfg/CheckedSanity.thorough.cfg", timeout=2400, tag="sanity-base4-w8", workers=8))
     # ---- E: complete small-width table lifted to the real types
     rt = ctx.tlc_design("fn/CheckedTable", "cfg/CheckedTable.cfg", workers=1, timeout=900, tag="table")
     if rt.nexports < 10000:
